@@ -72,7 +72,19 @@ def shared_mutable_names(mod):
                 if isinstance(sub, ast.Subscript) and leaf(sub.value) in cand: hit.add(leaf(sub.value))
         if isinstance(n, ast.Call) and isinstance(n.func, ast.Attribute) and n.func.attr in _MUTATORS and leaf(n.func.value) in cand:
             hit.add(leaf(n.func.value))
-    # a function-local variable of the same name is not the shared container; keep only names that are never bound as plain locals
+    # a container nothing ever reads (every use is the receiver of a mutator call whose result is discarded, e.g. a list that only keeps
+    # objects alive) cannot carry behaviour from one call to the next: not hidden state in the sense above
+    write_only = set()
+    for name in hit:
+        mut_receivers = set(); loads = 0
+        for n in ast.walk(mod.tree):
+            if isinstance(n, ast.Expr) and isinstance(n.value, ast.Call) and isinstance(n.value.func, ast.Attribute) and n.value.func.attr in ("append", "add", "extend") and leaf(n.value.func.value) == name:
+                mut_receivers.add(id(n.value.func.value))
+        for n in ast.walk(mod.tree):
+            if isinstance(n, (ast.Name, ast.Attribute)) and leaf(n) == name and isinstance(getattr(n, "ctx", None), ast.Load) and id(n) not in mut_receivers: loads += 1
+        if loads == 0 and mut_receivers: write_only.add(name)
+    hit -= write_only
+    mod._write_only_containers = write_only
     mod._shared_mutable = hit
     return hit
 
